@@ -68,7 +68,7 @@ def rule_err(ctx, M, u):
     claimed = set()
     consumed_w = [b for b, pt, v, sp in scan.field_writes(bi) if pt == scan.self_field("consumed") and v == ("const", 1)]
     takes = [s.block for s in bi.sites if (s.callee.owner in ("OutputArray", "OutputVec") and s.callee.name == "take")
-             or s.key == ("MaybeUninit", "assume_init") or s.key == ("core::mem::swap", "swap")]
+             or s.key == ("MaybeUninit", "assume_init") or s.block in flow.all_take_blocks(bi)]
     for c in u.cps:
         ee = bi.outcome_edges(c.site, "Ready", "Err")
         if not ee:
